@@ -508,7 +508,41 @@ def design_matrix(ctx, obs):
     got = poly.from_expr(s.value, leaf)
     ref = poly.add(poly.sym('n_vols'), poly.sym('cols'), -1)
     if got is None:
-        obs.unk('POLY', q, 'dof == n_vols - number of columns of the design matrix', f'`{norm(s.value)}` not a polynomial in n_vols / shape')
+        # a count that is kept by hand: wrong when one of its summands is the width of a table that loses columns afterwards
+        filtered = {c.func.value.id for c in ast.walk(f.node) if isinstance(c, ast.Call) and isinstance(c.func, ast.Attribute)
+                    and c.func.attr in ('dropna', 'drop', 'select_dtypes', 'filter') and isinstance(c.func.value, ast.Name)}
+        widths = {}      # name -> table whose (unfiltered) width it holds
+        for st in ast.walk(f.node):
+            if not isinstance(st, ast.Assign):
+                continue
+            t, v = st.targets[0], st.value
+            if isinstance(v, ast.Attribute) and v.attr == 'shape' and isinstance(v.value, ast.Name) and isinstance(t, (ast.Tuple, ast.List)) \
+                    and len(t.elts) == 2 and isinstance(t.elts[1], ast.Name):
+                widths[t.elts[1].id] = v.value.id
+            elif isinstance(t, ast.Name) and isinstance(v, ast.Subscript) and isinstance(v.value, ast.Attribute) and v.value.attr == 'shape' \
+                    and isinstance(v.value.value, ast.Name) and isinstance(v.slice, ast.Constant) and v.slice.value == 1:
+                widths[t.id] = v.value.value.id
+        # names feeding dof
+        feeds, todo = set(), [x.id for x in ast.walk(s.value) if isinstance(x, ast.Name)]
+        while todo:
+            nm_ = todo.pop()
+            if nm_ in feeds:
+                continue
+            feeds.add(nm_)
+            for st in ast.walk(f.node):
+                if isinstance(st, (ast.Assign, ast.AugAssign)):
+                    tg = st.targets[0] if isinstance(st, ast.Assign) else st.target
+                    if isinstance(tg, ast.Name) and tg.id == nm_:
+                        todo += [x.id for x in ast.walk(st.value) if isinstance(x, ast.Name)]
+        direct = [x for x in ast.walk(f.node) if isinstance(x, ast.Subscript) and isinstance(x.value, ast.Attribute) and x.value.attr == 'shape'
+                  and isinstance(x.value.value, ast.Name) and x.value.value.id in filtered and isinstance(x.slice, ast.Constant) and x.slice.value == 1]
+        stale = sorted(nm_ for nm_ in feeds if widths.get(nm_) in filtered)
+        if stale:
+            obs.bad('POLY', q, 'dof == n_vols - number of columns of the design matrix', f'dof = `{norm(s.value)}` counts `{stale[0]}`, the width '
+                    f'of `{widths[stale[0]]}` BEFORE columns are dropped from it ({widths[stale[0]]}.dropna / drop): dropped columns are '
+                    f'still subtracted', where(prog, f, s))
+        else:
+            obs.unk('POLY', q, 'dof == n_vols - number of columns of the design matrix', f'`{norm(s.value)}` not a polynomial in n_vols / shape')
     else:
         obs.check(got == ref, 'POLY', q, 'dof == n_vols - number of columns of the design matrix',
                   f'dof = `{norm(s.value)}` == {poly.show(got)}, expected n_vols - cols', '', where(prog, f, s))
@@ -575,8 +609,52 @@ def design_matrix(ctx, obs):
              where(prog, f, f.node))
 
 
+def skip_leak(ctx, obs, q, rule='SKIP-LEAK'):
+    """A loop that SKIPS some items (`continue` behind a test) must not have changed, before the skip, any variable that survives the
+    loop: the skipped item's value would otherwise be what the function returns / what later items are compared with.
+    Flagged: a name that is live after the loop (returned or read after it), assigned unconditionally in the loop body BEFORE a
+    guarded `continue`."""
+    prog = ctx.prog
+    f = prog.func(q)
+    n = 0
+    for lp in [x for x in ast.walk(f.node) if isinstance(x, ast.For)]:
+        body = lp.body
+        skip_pos = [i for i, st in enumerate(body) if isinstance(st, ast.If) and any(isinstance(x, ast.Continue) for x in ast.walk(st))]
+        if not skip_pos:
+            continue
+        after = []
+        seen = False
+        for st in ast.walk(f.node):
+            pass
+        # names read after the loop (in statements following it in the enclosing block) or returned
+        live = set()
+        for blk in [x for x in ast.walk(f.node) if hasattr(x, 'body') and isinstance(getattr(x, 'body'), list)]:
+            for fld in ('body', 'orelse'):
+                seq = getattr(blk, fld, None)
+                if isinstance(seq, list) and lp in seq:
+                    for st in seq[seq.index(lp) + 1:]:
+                        live |= {x.id for x in ast.walk(st) if isinstance(x, ast.Name) and isinstance(x.ctx, ast.Load)}
+        for i, st in enumerate(body[:skip_pos[-1]]):
+            if not isinstance(st, ast.Assign):
+                continue
+            tg = []
+            for t in st.targets:
+                tg += [x.id for x in ([t] if isinstance(t, ast.Name) else (t.elts if isinstance(t, (ast.Tuple, ast.List)) else [])) if isinstance(x, ast.Name)]
+            for name in tg:
+                if name in live:
+                    n += 1
+                    obs.bad(rule, q, f'`{name}` (used after the loop) is not changed by an item that is skipped',
+                            f'`{norm(st)[:70]}` assigns `{name}` for every item, before `{norm(body[skip_pos[-1]].test)[:50]}` decides to skip the '
+                            f'item: the value of a skipped item is what survives the loop', where(prog, f, st))
+        if skip_pos:
+            n += 1
+    if n and not any(o.rule == rule and o.func == q and o.verdict == 'violated' for o in obs.items):
+        obs.ok(rule, q, 'variables that survive a skipping loop are only changed by accepted items', '', where(prog, f, f.node))
+
+
 def meadows(ctx, obs):
     prog = ctx.prog
+    skip_leak(ctx, obs, 'io.meadows.load_rdms_comps_json')
     q = 'io.meadows.load_rdms'
     f = prog.func(q)
     g = [n for n in ast.walk(f.node) if isinstance(n, ast.If) and isinstance(n.test, ast.Name) and n.test.id == 'sort']
